@@ -45,15 +45,26 @@ let split_ws (l : string) : string list =
    returns (model_result, verdict) with verdict in {"holds"; "fails:<class>"; "na"}. *)
 let run_driver (f : string list -> string list -> string * string) : unit =
   let cases = open_in Sys.argv.(1) in
-  let impl = if Array.length Sys.argv > 2 then Some (open_in Sys.argv.(2)) else None in
+  (* implementation results are matched by case index, not by line position *)
+  let impl : (string, string list) Hashtbl.t = Hashtbl.create 1024 in
+  (if Array.length Sys.argv > 2 then begin
+     let c = open_in Sys.argv.(2) in
+     (try while true do
+         match split_ws (input_line c) with
+         | idx :: r -> Hashtbl.replace impl idx r
+         | [] -> ()
+       done with End_of_file -> ());
+     close_in c
+   end);
   (try
     while true do
       let line = input_line cases in
-      let il = match impl with Some c -> (try input_line c with End_of_file -> "") | None -> "" in
+      let t = String.trim line in
+      if t = "" || t.[0] = '#' then () else
       match split_ws line with
       | [] -> ()
       | idx :: toks ->
-        let itoks = match split_ws il with [] -> [] | _ :: r -> r in
+        let itoks = (try Hashtbl.find impl idx with Not_found -> []) in
         let (m, v) = (try f toks itoks with
                       | Stack_overflow -> ("driver-stack-overflow", "na")
                       | Failure e -> ("driver-failure:" ^ e, "na")
